@@ -214,6 +214,9 @@ func Project(s *gtfs.Static) Result {
 		if t.Hour() != 0 || t.Minute() != 0 || t.Second() != 0 || t.Nanosecond() != 0 {
 			return -2
 		}
+		if t.Format("20060102") == "00010101" {
+			return ZeroDate
+		}
 		return tokOf(Dates, t.Format("20060102"))
 	}
 	for _, a := range s.Agencies {
